@@ -733,7 +733,9 @@ def differential(ctx: fw.Ctx) -> None:
     for name, cases in D.items():
         ctx.differential(name, HEADER, cases, shard=150)
     ctx.differential('fl_trace', c06_trace.HEADER, traces, shard=40)
-    ctx.notes.append('function level: ' + RULE_FN)
+    ctx.notes.append(RULE_FN + '; traces = (registry variant [filtered / unfiltered / shared id / optional only] x handler outcome scripts x list of '
+                     'actions: cycle [with a foreign write before the n-th request], foreign finalizer add/remove, label on/off, spec edit, delete, '
+                     'restart) run through the real process_resource_event and replayed in the Gallina acceptor; non-trivial iff a request was refused (422)')
 
 
 def replay(ctx: fw.Ctx, body: dict) -> bool:
